@@ -71,7 +71,7 @@ pub fn run(ctx: &Ctx) -> Outcome {
     let histories: u64 = if ctx.thorough { 14 * 20_000 } else { 8_000 };
     for idx in ctx.my_cases(histories) {
         let mut rng = ctx.rng("C06-buffer", idx);
-        buffer_history(ctx, &mut out, &mut rng, idx);
+        buffer_history(ctx, &mut out, &mut rng, idx, "C06");
     }
     out
 }
@@ -80,7 +80,11 @@ pub fn run(ctx: &Ctx) -> Outcome {
 /// WAL sequence number), take (with sequence numbers) and prepend (what a failed flush puts back); after every
 /// step the buffered batches (identified by their row ids), their sequence numbers, the row and batch counts
 /// must equal the model's, take must hand out everything (each batch once, with its own number) and leave the buffer empty.
-fn buffer_history(ctx: &Ctx, out: &mut Outcome, rng: &mut Rng, idx: u64) {
+///
+/// Called for C06 (rows: nothing lost, nothing twice, take empties) and for C01 (additionally: every batch keeps
+/// the WAL sequence number it was appended with - the flushed mark is computed from those).
+pub fn buffer_history(ctx: &Ctx, out: &mut Outcome, rng: &mut Rng, idx: u64, prop: &str) {
+    let with_seqs = prop == "C01";
     use cardinalsin::ingester::WriteBuffer;
     let mut buf = WriteBuffer::new();
     let mut model: Vec<(Vec<i64>, u64)> = vec![]; // (row ids of the batch, seq)
@@ -90,7 +94,7 @@ fn buffer_history(ctx: &Ctx, out: &mut Outcome, rng: &mut Rng, idx: u64) {
     let mut trace: Vec<String> = vec![];
     let n = 4 + rng.usize(14);
     let bad = |out: &mut Outcome, sig: &str, what: String, trace: &Vec<String>| {
-        out.violation(&format!("C06/buffer/{}", sig), &format!("after {:?}: {}", trace, what), json!({"lane": "buffer-model", "history": idx, "seed": ctx.seed}));
+        out.violation(&format!("{}/buffer/{}", prop, sig), &format!("after {:?}: {}", trace, what), json!({"lane": "buffer-model", "history": idx, "seed": ctx.seed}));
     };
     for _ in 0..n {
         match rng.below(10) {
@@ -126,7 +130,8 @@ fn buffer_history(ctx: &Ctx, out: &mut Outcome, rng: &mut Rng, idx: u64) {
                 let mut got: Vec<(Vec<i64>, u64)> = batches.iter().map(rows::ids_of).zip(seqs.iter().cloned()).collect();
                 got.sort();
                 model.sort();
-                if got != model || batches.len() != seqs.len() {
+                let same = if with_seqs { got == model } else { got.iter().map(|g| &g.0).eq(model.iter().map(|m| &m.0)) };
+                if !same || batches.len() != seqs.len() {
                     bad(out, "take-differs-from-what-was-buffered", format!("take returned {:?}, buffered were {:?}", got, model), &trace);
                     return;
                 }
@@ -161,7 +166,8 @@ fn buffer_history(ctx: &Ctx, out: &mut Outcome, rng: &mut Rng, idx: u64) {
     let mut got: Vec<(Vec<i64>, u64)> = batches.iter().map(rows::ids_of).zip(seqs.iter().cloned()).collect();
     got.sort();
     model.sort();
-    if got != model || batches.len() != seqs.len() {
+    let same = if with_seqs { got == model } else { got.iter().map(|g| &g.0).eq(model.iter().map(|m| &m.0)) };
+    if !same || batches.len() != seqs.len() {
         bad(out, "take-differs-from-what-was-buffered", format!("final take returned {:?}, buffered were {:?}", got, model), &trace);
         return;
     }
